@@ -24,6 +24,9 @@ type script struct {
 	Corrupt  string   `json:"corrupt"` // "" = Served is the valid encoding chain of Payload
 	SetCL    bool     `json:"set_cl"`  // declare Content-Length; otherwise flush first (chunked / no length)
 	CT       string   `json:"content_type"`
+	GenSeed  uint64   `json:"gen_seed,omitempty"`      // sequences: Payload = genPayload(GenSeed, len)
+	Status   int      `json:"status,omitempty"`        // 0 = 200
+	CRange   string   `json:"content_range,omitempty"` // Content-Range header (206)
 	refTable map[string]refOut
 	once     sync.Once
 }
@@ -79,7 +82,14 @@ func (o *origins) handler(w http.ResponseWriter, r *http.Request) {
 	if s.SetCL || r.Method == "HEAD" {
 		h.Set("Content-Length", strconv.Itoa(len(s.Served)))
 	}
-	w.WriteHeader(200)
+	if s.CRange != "" {
+		h.Set("Content-Range", s.CRange)
+	}
+	if s.Status != 0 {
+		w.WriteHeader(s.Status)
+	} else {
+		w.WriteHeader(200)
+	}
 	if r.Method == "HEAD" {
 		return
 	}
